@@ -1,18 +1,17 @@
-\* pattern R export (run with -simulate): random interleavings, printed when every thread is done
-SPECIFICATION XSpec
+\* C17 with the F9 repair modelled: at-most-once and module-beats-builtin hold with NO excuse
+SPECIFICATION Spec
 CONSTANTS
   Mod <- ModAB
   Thr = {"t1", "t2"}
   NoT = "none"
   HasB <- ModAB
-  Flavour <- FlavBoth
+  Flavour <- FlavRemoves
   ImpTarget = "b"
-  MaxEnv = 4
+  MaxEnv = 3
   MaxExtract = 2
   FixedF9 = TRUE
 INVARIANT AtMostOnce
 INVARIANT ModuleBeatsBuiltin
-INVARIANT InTimeF4
 INVARIANT LockDiscipline
-CONSTRAINT Emit
+INVARIANT OneInside
 CHECK_DEADLOCK FALSE
